@@ -265,6 +265,8 @@ func IsPermanentError(err error) bool {
 
 	permanentPatterns := []string{
 		"revision mismatch",
+		"wrong last sequence", // nats.go: revision-checked Update (and Create) lost the race
+		"key exists",          // nats.go: Create on a live key
 		"key not found",
 		"permission denied",
 		"bucket not found",
